@@ -236,6 +236,10 @@ def run(chk):
         chk.sample({"files": files, "occurrences": len(p.occs), "features": sorted(p.features)}, limit=3)
     probe.stop()
     modelchk.finish(stats)
+    if stats["discarded"] > 0.2 * (stats["discarded"] + stats["programs"]) + 3:
+        chk.tie_break("generator-domain", "%d of %d generated projects no longer assemble or analyse without diagnostics (normally < 6%%): "
+                      "path forms the generator relies on (bubbling, dotted, super, imports) stopped working" % (
+                          stats["discarded"], stats["discarded"] + stats["programs"]), {"stats": stats})
     chk.cov["rule"] = ("seeded random error-free projects (1-3 files): nested label/anonymous scopes with names drawn from a 6-name pool "
                        "(shadowing), plain / dotted / super / super-dotted / sibling-super paths, forward references, macros with parameters "
                        "(literal and symbol arguments, local labels, invoked 1-3x at root and in nested scopes, uninvoked macros), taken and "
